@@ -19,6 +19,15 @@ Sanity check by mutation (scratch copies, each reported VIOLATION with a concret
   M19 FacetIndex.index_doc stores a copy of the posting on every insert                           caught
 M1, M12 need a threshold crossing on one side and a non-crossing change of the same posting on the other,
 with the contended docid not at the head of its bucket (padded-directed generator mode).
+Text index (object-level model `HypatiaModel/ConcurrencyText.lean`, generator mode "padded-trees": DICT_CUTOFF 2
+and three padding documents per text, so that every word the transactions use has an IFBTree posting - the only
+shape in which two text-indexing transactions both commit in reality):
+  T1  IFBTree postings of a class whose `_p_resolveConflict` keeps the new state                  caught
+  T2  lexicon `_words` of a class whose `_p_resolveConflict` keeps the new state          not caught: equivalent
+      (two new words then get the same wid and both transactions insert `_wordinfo[wid]` -> ConflictError)
+  T3  `indexed_count` = a Length subclass whose `_p_resolveConflict` keeps the new state         caught
+  T4  `_add_wordinfo` / `_mass_add_wordinfo` copy an IFBTree posting of exactly 4 members into a new object
+      (the old one is left as it is - the text index's analogue of D20)                          caught
 """
 import importlib
 import os
@@ -29,7 +38,8 @@ from lib import core
 from lib.core import exc_name
 
 ID = "C19"
-AUDIT_IMPORTS = ["HypatiaProofs.Properties.C19", "HypatiaProofs.Properties.C19Index"]
+AUDIT_IMPORTS = ["HypatiaProofs.Properties.C19", "HypatiaProofs.Properties.C19Index",
+                 "HypatiaProofs.Properties.C19Text", "HypatiaProofs.Properties.C19TextFull"]
 THEOREMS = ["Hyp.Concurrency." + t for t in (
     "c19_conflict_no_trace", "c19_both_visible_serial", "c19_mergeKey_cases", "c19_merge_is_serial",
     "c19_length_merge", "c19_write_skew_needs_rw")] + ["Hyp.CIdx." + t for t in (
@@ -37,7 +47,15 @@ THEOREMS = ["Hyp.Concurrency." + t for t in (
     "c19_field_merged_observes_serial", "c19_d20_unrepaired_loses_update", "c19_d20_repaired_conflicts",
     "c19_replacement_conflicts", "c19_keyword_no_orphan_merge", "c19_keyword_init", "c19_keyword_txn_refines",
     "c19_keyword_conflict_or_serial", "c19_keyword_serial_refines", "c19_keyword_merged_observes_serial",
-    "c19_field_reachable_base", "c19_keyword_reachable_base")]
+    "c19_field_reachable_base", "c19_keyword_reachable_base",
+    # text index at object level (Properties/C19Text.lean)
+    "c19_text_first_new_wid", "c19_text_new_words_conflict", "c19_text_wordinfo_key_conflict",
+    "c19_text_dict_posting_conflict", "c19_text_cutoff_switch_conflict", "c19_text_tree_posting_merges",
+    "reach_run", "tsound_of_reach", "lextrack_of_reach",
+    # text index: conflict or serial in full (Properties/C19TextFull.lean)
+    "c19_text_init", "c19_text_txn_refines", "c19_text_reachable_base", "c19_text_conflict_or_serial",
+    "c19_text_serial_refines", "c19_text_observable", "c19_text_merged_observes_serial", "c19_text_freq_ok",
+    "tframe_run", "tmerged_inv")]
 CASES = {"quick": 640, "thorough": 12000}
 BUDGET_S = {"quick": 50, "thorough": 800}
 BATCH = 10
@@ -49,26 +67,34 @@ RULE = ("a committed base state (0-12 operations on a catalog with field, keywor
         "loser aborts); a third connection with an empty cache is then compared - complete observable state "
         "and query battery - with an in-memory catalog that ran the base and then the committed transactions "
         "one after the other; the same operations are replayed on the object-level Lean model (field, keyword, "
-        "facet index as heaps of persistent objects) whose merge must succeed whenever both real commits did, "
+        "facet, Okapi-text and cosine-text index as heaps of persistent objects) whose merge must succeed whenever both real commits did, "
         "with the same stored state. non-trivial = both transactions change something and at least one posting / "
         "word is shared between them")
 LEVEL_TEXT = ("Lean 4: (1) generic optimistic commit with three-way merges: merged = serial when every doubly "
               "written position merges and the second transaction read nothing the first wrote; (2) per-index "
-              "object layer: field, keyword and facet index as heaps of persistent objects (forward tree key -> "
-              "reference, posting objects with their own identity incl. the Set -> TreeSet replacement, reverse "
-              "tree, not-indexed set, Length) with read/write footprints and BTrees' rules (per-key merge, "
+              "object layer: field, keyword, facet and text index as heaps of persistent objects (forward tree key "
+              "-> reference, posting objects with their own identity incl. the Set -> TreeSet replacement; for "
+              "the text index the lexicon's two trees and Length with _new_wid's skip loop, _wordinfo whose values "
+              "are a plain dict stored in the bucket or a reference to an IFBTree from DICT_CUTOFF members on, "
+              "_docwords, _docweight, three Lengths) with read/write footprints and BTrees' rules (per-key merge, "
               "conflict when both changed a key, when the committed or new state is empty, when the merged one "
-              "would be). Field index and keyword index (repaired code, any tree_threshold), for all bases "
-              "satisfying the C01 / C02 invariant and all operation lists on disjoint docids: the second commit "
-              "conflicts or the merged heap satisfies the invariant for the serial table "
-              "(c19_field_conflict_or_serial, c19_keyword_conflict_or_serial; queries, counts, statistics = "
-              "serial). D20 as theorems: the unrepaired replacement merges and loses the update (witness); "
-              "repaired code: replacing a posting object the other side wrote always conflicts. Runtime half: "
-              "two real connections vs serial replay, and real ok+ok => model merge ok with the same stored state")
+              "would be). Field index, keyword index (repaired code, any tree_threshold) and text index (Okapi and "
+              "cosine, any DICT_CUTOFF), for all bases satisfying the object-level C01 / C02 / C03+C06 invariant "
+              "and all operation lists on disjoint docids: the second commit conflicts or the merged heap "
+              "satisfies the invariant for the serial table (c19_field_/keyword_/text_conflict_or_serial; "
+              "queries, counts, statistics, document words = serial). Text-specific: two transactions that both "
+              "add a word to the lexicon always conflict (same _words key), both changing a dict-valued posting "
+              "conflict, the dict -> IFBTree switch against a dict update conflicts, an IFBTree posting changed at "
+              "different docids merges. D20 as theorems: the unrepaired replacement merges and loses the update "
+              "(witness); repaired code: replacing a posting object the other side wrote always conflicts. "
+              "Runtime half: two real connections vs serial replay, and real ok+ok => model merge ok with the "
+              "same stored state, for all five indexes")
 LEVEL_NOTE = ("partial: thread scheduling, MVCC, storage and the real conflict-resolution code are ZODB/BTrees' "
               "(trusted, sampled; the model's merge rules are a subset of BTrees' refusals, checked in the "
-              "direction real success => model success); the conflict-or-serial theorem is proved for the field "
-              "and the keyword index; facet index: object model and runs only; text indexes: runs only")
+              "direction real success => model success - e.g. real BTrees refuse every doubly written _wordinfo "
+              "bucket that holds a dict-valued key because dicts are not orderable); the conflict-or-serial "
+              "theorem is proved for the field, the keyword and the text index; facet index: object model and "
+              "runs only")
 TECHNIQUE = "Lean 4 proof about the three-way-merge abstraction + two-connection differential run on a real FileStorage"
 
 c09 = importlib.import_module("props.c09")
@@ -92,6 +118,13 @@ def gen_padded(rng, tier, idx):
     thr = rng.choice([2, 3, 3, 4, 5])
     cutoff = rng.choice([2, 3, 10])
     npad = 3
+    # "padded-trees": every word the transactions use already has an IFBTree posting (DICT_CUTOFF 2, three
+    # padding documents per text) - the only shape in which two text-indexing transactions can both commit
+    trees = rng.random() < 0.25
+    tseeds = rng.sample([7, 13, 20, 27, 9, 15, 22, 29, 35], 2)
+    if trees:
+        cutoff = 2
+        npad = 6
     nids = npad + rng.randrange(6, 12)
     live = list(range(npad, nids))
     rng.shuffle(live)
@@ -101,10 +134,16 @@ def gen_padded(rng, tier, idx):
            rng.choice([7, 13, 20, 27])]
     seeds = [rng.randrange(7, 60) for _ in range(2)]
 
+    if trees:
+        hot[3], hot[4] = rng.choice(tseeds), rng.choice(tseeds)
+
     def docspec():
         r = rng.random()
         if r < 0.6:
             return list(hot)
+        if trees:
+            return [rng.choice([1, 2, 3]), rng.choice([2, 4, 6, 8, 12]), rng.choice([1, 2, 4, 8]),
+                    rng.choice(tseeds), rng.choice(tseeds)]
         return [rng.choice([1, 2, 3]), rng.choice([2, 4, 6, 8, 12]), rng.choice([1, 2, 4, 8]),
                 rng.choice(seeds + [hot[3]]), rng.choice(seeds + [hot[4]])]
     k = [0]
@@ -114,7 +153,7 @@ def gen_padded(rng, tier, idx):
         cmds.append([who, k[0], op, d] + (spec if spec is not None else []))
         k[0] += 1
     for d in range(npad):                       # padding: smallest keys everywhere
-        add("base", "index", d, [0, 1, 0, 1, 1])
+        add("base", "index", d, [0, 1, 0, tseeds[d % 2], tseeds[d % 2]] if trees else [0, 1, 0, 1, 1])
     directed = rng.random() < 0.5
     if directed:
         n_hot = rng.choice([thr - 1, thr - 1, cutoff - 1, thr, max(1, thr - 2)])
@@ -147,7 +186,7 @@ def gen_padded(rng, tier, idx):
             if first == "unindex":
                 out.append((who, "unindex", d1, None))
             else:
-                out.append((who, "reindex", d1, [3, 8, 8, seeds[0], seeds[0]]))
+                out.append((who, "reindex", d1, [3, 8, 8, tseeds[0], tseeds[1]] if trees else [3, 8, 8, seeds[0], seeds[0]]))
             if rng.random() < 0.8:
                 out.append((who, "index", d2, list(hot)))
         else:
@@ -177,15 +216,19 @@ def gen_padded(rng, tier, idx):
     # look like base, winner, loser in that order (seeded change C19_C kept per-connection state across abort)
     cmds.append([rng.choice(["check", "retrycheck"])])
     r = rng.random()
-    if r < 0.25:
+    if trees and r < 0.7:
+        present = [rng.choice(["i3", "i4"])] if r < 0.6 else ["i3", "i4"]
+    elif r < 0.25:
         present = list(c09.ALL)
     elif r < 0.85:
         present = [rng.choice(c09.ALL)]
     else:
         present = sorted(rng.sample(list(c09.ALL), 2))
+    mode = ("padded-trees-directed" if directed else "padded-trees") if trees else \
+        ("padded-directed" if directed else "padded")
     return {"session": "concurrency",
             "cfg": [["cfg", "ids", nids], ["cfg", "cutoff", cutoff], ["cfg", "present"] + present,
-                    ["cfg", "thr", thr], ["cfg", "mode", "padded-directed" if directed else "padded"]],
+                    ["cfg", "thr", thr], ["cfg", "mode", mode]],
             "cmds": cmds}
 
 
@@ -382,7 +425,32 @@ def objobs(cat, ids):
                                                                            re.findall(r"'([^']*)'", r)))))
         fwd = ["%d:%s" % (names.index(w), idset(ix.applyEq(w))) for w in sorted(ix.unique_values(), key=names.index)]
         out.append("%s rev=[%s] ni=%s fwd=[%s] inv=1" % (name, " ".join(rev), idset(ix.not_indexed()), " ".join(fwd)))
+    for name in ("i3", "i4"):
+        if name not in cat:
+            continue
+        ix = cat[name]
+        rev = []
+        for d in ids:
+            r = ix.document_repr(d)
+            if r is not None:
+                rev.append("%d:%s" % (d, ",".join(str(wordcode(w)) for w in r.split())))
+        fwd = []
+        for w in sorted(ix.lexicon.words(), key=wordcode):
+            try:
+                post = idset(ix.apply(w).keys())
+            except Exception as e:          # e.g. ZeroDivisionError on an inconsistent stored state
+                post = exc_name(e).replace(" ", "-")
+            if post != "{}":
+                fwd.append("%d:%s" % (wordcode(w), post))
+        out.append("%s rev=[%s] ni=%s ic=%d wc=%d lwc=%d fwd=[%s]" % (
+            name, " ".join(rev), idset(ix.not_indexed()), ix.indexed_count(), ix.word_count(),
+            ix.lexicon.word_count(), " ".join(fwd)))
     return " ;; ".join(out)
+
+
+def wordcode(w):
+    """the object-level model's numbering of `make_doc`'s vocabulary"""
+    return c09.WORDS.index(w) if w in c09.WORDS else 100 + int(w[1:])
 
 
 def post_model(hyp, case, mouts, iouts=None):
@@ -404,7 +472,7 @@ def post_model(hyp, case, mouts, iouts=None):
     order = [c[1] for c in case["cmds"] if c[0] == "commit"]
     _LAST["model2"] = "conflict" if any(m.startswith("conflict ") for m in mouts) else "ok"
     _LAST["objects"] = sorted({"%s:%s" % x for m in mouts if m.startswith("conflict ")
-                               for x in re.findall(r"(i\d):(fwd|rev|ni|len|post)", m.split(" ## ")[0])})
+                               for x in re.findall(r"(i\d):(fwd|rev|ni|len|post|wids|words|wordinfo|docwords|docweight|tree)", m.split(" ## ")[0])})
     res = []
     for m in mouts:
         if m.startswith("eff "):
@@ -471,6 +539,13 @@ def features(case, outs):
         f.append("second commit real:%s object-model:%s" % (res[1], _LAST.get("model2")))
         for ob in _LAST.get("objects", []):
             f.append("object-model refuses " + ob)
+    present = case["cfg"][2][2:]
+    for ix, pos in (("i3", 7), ("i4", 8)):
+        if ix in present and len(res) == 2:
+            both = all(any(c[0] == w and c[2] != "unindex" and len(c) > pos and c[pos] != "-" for c in case["cmds"])
+                       for w in ("a", "b"))
+            if both:
+                f.append("%s: both transactions index text, outcomes:%s" % (ix, "+".join(res)))
     for c, o in zip(case["cmds"], outs):
         if c[0] in ("a", "b"):
             f.append("txn-op:" + c[2])
